@@ -197,6 +197,25 @@ def _run_history(case):
                         sess.delete(o)
                         intents.append(("del", pk, s))
                     outs.append("d")
+                elif kind == "mrg":
+                    pk, s, v = op[1], op[2], op[3]
+                    o = ident(pk, s)
+                    if o is None or o in sess.deleted or pk not in truth[s]:
+                        outs.append("-")
+                        continue
+                    sess.expunge(o)          # detached, still carrying the key (cls, pk, token s)
+                    o.val = v
+                    src_key = inspect(o).key
+                    m = sess.merge(o)
+                    keep.append(m)
+                    intents.append(("set", pk, s, v))
+                    if "region" in o.__dict__ and o.__dict__["region"] != truth[s][pk][0]:
+                        intents.append(("setr", pk, s, o.__dict__["region"]))
+                    outs.append("d")
+                    if inspect(m).key != src_key:
+                        problems.append(("merge-crossed-shards", "detached object of shard %d merged onto the instance with key %s" % (s, inspect(m).key[1:])))
+                    if m is o:
+                        problems.append(("merge-returned-source", "pk %d" % pk))
                 elif kind == "flush":
                     try:
                         sess.flush()
@@ -348,9 +367,11 @@ def gen_random(rng, tier):
             ops.append(("set", pk, s, rng.randint(6, 9)))
         elif r < 0.52:
             ops.append(("setr", pk, s, rng.randrange(nreg)))
-        elif r < 0.58:
+        elif r < 0.55:
             ops.append(("del", pk, s))
-        elif r < 0.82:
+        elif r < 0.62:
+            ops.append(("mrg", pk, s, rng.randint(10, 15)))
+        elif r < 0.84:
             f = rng.choice([("all",), ("r", rng.randrange(nreg)), ("v", rng.randint(0, 9))])
             sh = None
             if rng.random() < 0.5:
@@ -365,7 +386,7 @@ def gen_random(rng, tier):
 def small_scope():
     import itertools
 
-    alpha = [("add", 0, 0, 1), ("add", 0, 1, 2), ("add", 1, 1, 3), ("flush",), ("set", 0, 0, 7), ("set", 0, 1, 8), ("setr", 0, 0, 1), ("del", 0, 1),
+    alpha = [("add", 0, 0, 1), ("add", 0, 1, 2), ("add", 1, 1, 3), ("flush",), ("set", 0, 0, 7), ("set", 0, 1, 8), ("setr", 0, 0, 1), ("mrg", 0, 1, 11), ("mrg", 0, 0, 12), ("del", 0, 1),
              ("q", ("all",), None), ("q", ("all",), [1]), ("q", ("all",), [1, 0]), ("get", 0, None), ("get", 0, 1)]
     for order in ([0, 1], [1, 0]):
         for seq in itertools.product(alpha, repeat=3):
@@ -415,7 +436,7 @@ def run(ctx, deep=False):
     ctx.rule = (
         "histories of add (pending object with a region) / set / delete / flush / query [filter] [explicit shard list] / get [token] on a real "
         "ShardedSession over 2-3 SQLite files with generated chooser functions (region->shard table, identity search order, per-query shard list); "
-        "random (seeded) + all 3-op sequences over a 12-letter alphabet x 2 identity orders after a prefix that puts one pk into both shards (10% quick, "
+        "random (seeded) + all 3-op sequences over a 14-letter alphabet x 2 identity orders after a prefix that puts one pk into both shards (10% quick, "
         "all thorough); non-trivial = at least one flush wrote a row"
     )
     import time
